@@ -135,6 +135,24 @@ for spans, net0, eq0 in configs:
         if got != want:
             wit.append({'key': key, 'problems': [f'fixed-mode verdicts {verdicts} (metric {probe} dB by offset, threshold {thr + margin}); without a mode the request '
                                                  f'ends with mode {r_auto.tsp_mode}, {getattr(r_auto, "blocking_reason", None)}, metric {metric}']})
+# a mode whose power offset saturates the amplifiers is explored before a mode that does not: the second one is judged on what
+# it gives on the line as designed (known finding F58: the amplifiers keep the gain reduction of the first propagation)
+for spans, net0, eq0 in configs[1:]:
+    margin = eq0['SI']['default'].sys_margins
+    _, fresh = plan(net0, library(eq0, [mode('p', 32e9, 100e9, 5, 50e9, 0)]), service('r', 'A', 'C', trx='synthetic', mode='p', spacing=50e9))
+    modes = [mode('hot', 32e9, 200e9, 45, 50e9, 5.0), mode('small', 32e9, 100e9, round(fresh - margin - 0.3, 2), 50e9, 0)]
+    eq = library(eq0, modes)
+    cases += 1
+    nontriv += 1
+    r_fix, m_fix = plan(net0, eq, service('r', 'A', 'C', trx='synthetic', mode='small', spacing=50e9))
+    r_auto, m_auto = plan(net0, eq, service('r', 'A', 'C', trx='synthetic', mode=None, spacing=50e9))
+    ok_fix = not hasattr(r_fix, 'blocking_reason')
+    got = None if getattr(r_auto, 'blocking_reason', None) is not None else r_auto.tsp_mode
+    if ok_fix and (got != 'small' or m_auto != m_fix):
+        carried = r_auto.tsp_mode == 'small' and m_auto is not None and m_auto < m_fix
+        wit.append({'key': 'saturation-clamp-carried-over-between-mode-propagations' if carried else f'{spans}:saturating mode explored first',
+                    'problems': [f'mode small fixed: feasible, metric {m_fix} dB (threshold {round(modes[1]["OSNR"] + margin, 2)}); without a mode, after the +5 dB mode '
+                                 f'was explored on the same elements: mode {r_auto.tsp_mode}, {getattr(r_auto, "blocking_reason", None)}, metric {m_auto} dB']})
 # a bidirectional request without a mode on a line whose two directions differ: feasibility of a mode includes the reverse path
 # (known finding F52: the mode is selected on the forward direction only)
 from bounded.common import trx as _trx, roadm as _roadm, fiber as _fiber
